@@ -96,6 +96,42 @@ func yieldStmt() ast.Stmt {
 	return &ast.ExprStmt{X: &ast.CallExpr{Fun: &ast.SelectorExpr{X: ast.NewIdent("verifhook"), Sel: ast.NewIdent("Yield")}}}
 }
 
+func yieldLockStmt() ast.Stmt {
+	return &ast.ExprStmt{X: &ast.CallExpr{Fun: &ast.SelectorExpr{X: ast.NewIdent("verifhook"), Sel: ast.NewIdent("YieldLock")}}}
+}
+
+// isYield recognises a statement inserted by yieldStmt.
+func isYield(s ast.Stmt) bool {
+	es, ok := s.(*ast.ExprStmt)
+	if !ok {
+		return false
+	}
+	c, ok := es.X.(*ast.CallExpr)
+	if !ok {
+		return false
+	}
+	se, ok := c.Fun.(*ast.SelectorExpr)
+	if !ok {
+		return false
+	}
+	id, ok := se.X.(*ast.Ident)
+	return ok && id.Name == "verifhook" && se.Sel.Name == "Yield"
+}
+
+// isLockCall: x.Lock() / x.RLock() as a statement of its own.
+func isLockCall(s ast.Stmt) bool {
+	es, ok := s.(*ast.ExprStmt)
+	if !ok {
+		return false
+	}
+	c, ok := es.X.(*ast.CallExpr)
+	if !ok || len(c.Args) != 0 {
+		return false
+	}
+	se, ok := c.Fun.(*ast.SelectorExpr)
+	return ok && (se.Sel.Name == "Lock" || se.Sel.Name == "RLock")
+}
+
 func hasCall(n ast.Node) bool {
 	found := false
 	ast.Inspect(n, func(x ast.Node) bool {
@@ -120,6 +156,15 @@ func (in *inst) list(stmts []ast.Stmt, atStart bool) []ast.Stmt {
 	}
 	for _, s := range stmts {
 		in.stmt(s)
+		// the point right before a mutex acquisition is of a kind of its own
+		if isLockCall(s) {
+			if n := len(out); n > 0 && isYield(out[n-1]) {
+				out[n-1] = yieldLockStmt()
+			} else {
+				out = append(out, yieldLockStmt())
+				in.count++
+			}
+		}
 		out = append(out, s)
 		switch s.(type) {
 		case *ast.ExprStmt, *ast.AssignStmt, *ast.GoStmt, *ast.SendStmt, *ast.IncDecStmt, *ast.DeclStmt:
